@@ -7,7 +7,9 @@ RULE = ("(1) TLC model-checks RingsClosed / RectOrdered over all histories of Po
         "the real Polygon / LineString / Rect (pre-state built through the public API, post-state compared field by field); "
         "(3) TLC-simulated behaviours of 20 calls are replayed from Init step by step; (4) seeded random histories driven "
         "from Rust (closures of up to 4 edits, Ok/Err exits, caught panics) are validated as one chain against "
-        "Trace_PolySession; (5) conversion cases. distinct_nontrivial = distinct transitions whose action changes the state "
+        "Trace_PolySession; (5) conversion cases; (6) Apalache discharges RingsClosed /\\ RectOrdered as an inductive invariant of "
+        "PolyInd.tla (closures abstracted to 'any resulting ring + Ok/Err', unbounded integers, any history length) and refutes the "
+        "early-return-on-Err variant. distinct_nontrivial = distinct transitions whose action changes the state "
         "or exits with Err/panic.")
 ASSUME = ["closures are sequences of push/pop/clear/set/insert edits followed by Ok or Err; closures that panic are not modelled",
           "ring coordinates are abstract identifiers (k -> (k, k*k)); coordinate values do not influence closing",
@@ -83,12 +85,19 @@ def check(tier, seed, t0):
     runs.append(res); ncases += n; mism += mm
     os.remove(res["cases_path"])
     vf.merge_counts(passc, summ["pass"]); vf.merge_counts(failc, summ["fail"])
+    # (6) unbounded: RingsClosed /\ RectOrdered is an inductive invariant of the typed restatement PolyInd.tla (Apalache):
+    # base case, inductive step, and the negative control (early return on Err = the defect repaired by FX-06) must be refuted
+    apa = [vf.run_apalache("C18_apa_base", "PolyInd", "Init", "IndInv", 0, "CInitT"),
+           vf.run_apalache("C18_apa_step", "PolyInd", "IndInit", "IndInv", 1, "CInitT"),
+           vf.run_apalache("C18_apa_control", "PolyInd", "IndInit", "IndInv", 1, "CInitF")]
+    if [a["outcome"] for a in apa] != ["NoError", "NoError", "Error"]:
+        raise vf.ToolError("Apalache inductive check of PolyInd gave %s (expected NoError, NoError, Error)" % [a["outcome"] for a in apa])
     cov = {"states": sum(r["distinct"] for r in runs), "transitions": sum(r["generated"] for r in runs),
            "traces_validated_against_impl": ncases + 1, "samples": samples[:5],
            "evaluations": sum(passc.values()) + sum(failc.values()), "distinct_nontrivial": nontriv, "rule": RULE,
            "checks_passed_by_kind": passc, "checks_failed_by_kind": failc, "harness_counters": extra,
            "recorded_trace_events": nev, "tlc_runs": vf.tlc_summary(runs),
-           "model_constants": base_consts(tier)}
+           "model_constants": base_consts(tier), "apalache_inductive": apa}
     vf.finish("C18", tier, seed, "model_checking", cov, ASSUME, t0, mism)
 
 
